@@ -55,6 +55,36 @@ func c28Options(i int) absnfs.ExportOptions {
 	return absnfs.ExportOptions{}
 }
 
+// c28Discover asks the portmapper on 127.0.0.1:111 where NFS v3 and MOUNT v3 (tcp) are served, the way a client of
+// a server started through StartWithPortmapper finds them, and returns the advertised ports.
+func c28Discover() (nfsPort, mountPort uint32, err error) {
+	cl, err := drv.Dial("127.0.0.1:111", 3*time.Second)
+	if err != nil {
+		return 0, 0, err
+	}
+	defer cl.Close()
+	ask := func(xid, prog, vers uint32) (uint32, error) {
+		rec, err := cl.RoundTrip(nfsx.Call(xid, nfsx.ProgPmap, 2, nfsx.PmapGetport, nfsx.AuthNone(), nfsx.AuthNone(), nfsx.ArgsPmap(nfsx.Mapping{Prog: prog, Vers: vers, Prot: 6})), 3*time.Second)
+		if err != nil {
+			return 0, err
+		}
+		rp, err := nfsx.ParseReply(rec)
+		if err != nil || rp.Xid != xid || rp.Stat != nfsx.MsgAccepted || rp.AcceptStat != nfsx.AcceptSuccess {
+			return 0, fmt.Errorf("GETPORT reply %+v, %v", rp, err)
+		}
+		res, err := nfsx.DecodePmap(2, nfsx.PmapGetport, rp.Body)
+		if err != nil {
+			return 0, err
+		}
+		return res.Port, nil
+	}
+	if nfsPort, err = ask(21, nfsx.ProgNFS, 3); err != nil {
+		return
+	}
+	mountPort, err = ask(22, nfsx.ProgMount, 3)
+	return
+}
+
 // c28Talk runs the conformant client against addr.
 func c28Talk(addr string) (stage string, err error) {
 	cl, err := drv.Dial(addr, 3*time.Second)
@@ -167,6 +197,22 @@ func runC28(tb stat.TB, c c28Case) {
 			}
 			stop = func() { srv.Stop() }
 			addr = fmt.Sprintf("127.0.0.1:%d", srv.GetPort())
+			if c.Path == "portmapper" {
+				// a client of this start path finds the services through the portmapper
+				np, mp, derr := c28Discover()
+				if derr != nil || np == 0 || mp == 0 {
+					stop()
+					stat.Violate(tb, id, check, "portmapper-does-not-advertise-the-services", c, "server started through StartWithPortmapper (explicit port=%v): GETPORT for NFS v3 / MOUNT v3 over tcp answered %d / %d (%v)", c.Explicit, np, mp, derr)
+					return
+				}
+				for _, p := range []uint32{np, mp} {
+					if stage, terr := c28Talk(fmt.Sprintf("127.0.0.1:%d", p)); terr != nil {
+						stop()
+						stat.Violate(tb, id, check, "advertised-port-does-not-serve", c, "server started through StartWithPortmapper (explicit port=%v, listening on %d): the portmapper advertises NFS on %d and MOUNT on %d; a conformant client talking to port %d failed at %s: %v", c.Explicit, srv.GetPort(), np, mp, p, stage, terr)
+						return
+					}
+				}
+			}
 		}
 		if c.QuietMs > 0 {
 			time.Sleep(time.Duration(c.QuietMs) * time.Millisecond)
